@@ -212,13 +212,14 @@ class SlotMonitor:
         self.header = {"V": None, "D": None}
         self.prev_seq = prev_seq
         self.prev_voice_label = None
+        self.air_voice = False  # the call as it is on the air: a voice LC header was received and since then nothing but voice bursts
         self.seen_ids = set()
         self.cur_id = None
         self.prev_stamp = None
 
     def key(self):
         return (self.open, tuple(self.since_start), tuple(sorted((k, v) for k, v in self.header.items())), self.prev_seq,
-                self.prev_voice_label.name if self.prev_voice_label else None, self.prev_stamp is not None and self.prev_stamp == self.cur_id)
+                self.prev_voice_label.name if self.prev_voice_label else None, self.prev_stamp is not None and self.prev_stamp == self.cur_id, self.air_voice)
 
 
 SKIP = frozenset({"observers", "_io", "_parent", "_root", "log_instance", "_log"})
@@ -301,7 +302,9 @@ def monitor_update(m, slot, burst, out, raised, evs, case):
             m.prev_seq = slot.rx_sequence  # numbering state after an externally forced end: whatever the timeslot holds now
         # rule 4: A-F labelling inside a voice transmission
         is_voice_burst = burst.data_type == DataTypes.Reserved and not isinstance(burst.data, BLOCK_TYPES)
-        in_voice = (m.open == "V") and not had_event
+        # "within a voice transmission": as the tracker sees it (a voice transmission is open) or as it is on the air (a voice LC header
+        # was received and nothing but voice bursts since) -- a tracker that ends the call on its own in the middle does not escape
+        in_voice = ((m.open == "V") and not had_event) or m.air_voice
         if is_voice_burst and in_voice:
             if burst.is_voice_superframe_start:
                 if out.voice_burst != VoiceBursts.VoiceBurstA:
@@ -311,9 +314,11 @@ def monitor_update(m, slot, burst, out, raised, evs, case):
             m.prev_voice_label = out.voice_burst if out.voice_burst in SUCC else None
         else:
             m.prev_voice_label = None
+        m.air_voice = True if is_vh else (m.air_voice if is_voice_burst else False)
     else:
         m.prev_voice_label = None
         m.prev_stamp = None
+        m.air_voice = False
         # the sequence counter state after a failure is whatever the implementation left; resync
         m.prev_seq = slot.rx_sequence
     return viol
@@ -499,6 +504,7 @@ class WatcherSys(explore.System):
                         # quantifies over burst sequences only, so the next sequence number is not constrained
                         m.prev_seq = None
                         m.prev_voice_label = None
+                        m.air_voice = False
                         slot = self.w.terminals[key[0]].timeslots[key[1]]
                         if slot.transmission.type != TransmissionTypes.Idle:
                             viol.append(("tracker_not_idle_after_ended", {**case, "terminal": key[0]}))
